@@ -311,7 +311,7 @@ func determinismSample(bin, prop, scratch string) string {
 
 // properties whose statement includes "without data races": part of the budget
 // is spent on the same search under a -race build
-var raceProps = map[string]bool{"C06": true, "C09": true, "C14": true}
+var raceProps = map[string]bool{"C06": true, "C09": true, "C14": true, "C20": true}
 
 // workloads the race slice of a property cycles through (its own first): C09's
 // clause is about "all of the scope API, recording and reporting", C14's about
